@@ -1,10 +1,11 @@
-\* C09 quick, hits and totals: 4 documents, every assignment to the leaves of 5 tree
-\* shapes, 2 corpora, pages From,Size <= 2, search-after/before from every document
+\* C09 quick, hits and totals: 4 documents, every assignment to the leaves of 4 tree shapes
+\* (flat, nested with a single-member alias, single-member root over a 3-member alias, single
+\* leaf), 2 corpora, pages From,Size <= 2, search-after/before from every document
 SPECIFICATION Spec
 CONSTANTS
   NDocs = 4
   PatIds = {1, 2}
-  TreeIds = {1, 2, 3, 4, 6}
+  TreeIds = {1, 3, 4, 6}
   SortIds = {1, 2, 3, 4}
   MaxFrom = 2
   MaxSize = 2
